@@ -298,6 +298,52 @@ def escapes_forms():
     return out
 
 
+def _digit_strings(alpha, maxlen):
+    out = [b'']
+    layer = [b'']
+    for _ in range(maxlen):
+        layer = [x + bytes([c]) for x in layer for c in alpha]
+        out += layer
+    return out
+
+
+def number_literals(tier):
+    """Exhaustive numeric literals: binary (int <= 4 digits, fraction <= 6 digits, plus one-hot fractions up to 20
+    digits), hexadecimal (int <= 2 digits, fraction <= 5 digits over a covering digit alphabet), decimal (covering
+    integer parts x fractions x exponents)."""
+    out = []
+    bi = _digit_strings(b'01', 4)
+    bf = _digit_strings(b'01', 6 if tier == 'quick' else 8)
+    for pre in (b'0b', b'0B'):
+        for i in bi:
+            out.append(pre + i)
+            for f in bf:
+                out.append(pre + i + b'.' + f)
+        for n in range(1, 21):
+            out.append(pre + b'0.' + b'0' * (n - 1) + b'1')
+            out.append(pre + b'11.' + b'1' * n)
+    hi = _digit_strings(b'019aF', 2)
+    hf = _digit_strings(b'08fA' if tier == 'quick' else b'018fA', 5)
+    for pre in (b'0x', b'0X'):
+        for i in hi:
+            out.append(pre + i)
+            for f in hf:
+                out.append(pre + i + b'.' + f)
+    ints = [b'', b'0', b'1', b'9', b'10', b'123', b'32767', b'32768', b'65536', b'007']
+    fracs = [None, b'', b'0', b'5', b'25', b'0625', b'00001', b'99999', b'000015259']
+    exps = [b'', b'e0', b'e1', b'E2', b'e+2', b'E+0', b'e-2', b'E-1', b'e10', b'e-10', b'e308', b'e-400', b'e', b'e+', b'e-']
+    for i in ints:
+        for f in fracs:
+            for e in exps:
+                lit = i + (b'' if f is None else b'.' + f) + e
+                if lit:
+                    out.append(lit)
+    return out
+
+
+NUMBER_PARTS = 16
+
+
 def shards(tier, seed):
     L = BOUNDS[tier]['char_len']
     total = count_strings(L, len(ALPHABET))
@@ -309,6 +355,7 @@ def shards(tier, seed):
     if tier == 'thorough':
         items += [('triples', i) for i in range(nr)]
     items += [('kw',), ('multi',), ('esc',)]
+    items += [('numbers', tier, k) for k in range(NUMBER_PARTS)]
     return items
 
 
@@ -343,12 +390,19 @@ def run_shard(item):
         for s in escapes_forms():
             compare(s, res, 'esc')
         res.sample({'src': escapes_forms()[40]})
+    elif kind == 'numbers':
+        lits = number_literals(item[1])[item[2]::NUMBER_PARTS]
+        for lit in lits:
+            compare(lit, res, 'numbers')
+            compare(b'x=' + lit + b'+a', res, 'numbers')
+            res.count('number_literals')
+        res.sample({'src': lits[len(lits) // 2]}, limit=1)
     return res
 
 
 def replay(case):
     res = ShardResult()
-    for fam in ('chars', 'pairs', 'triples', 'kw', 'multi', 'esc'):
+    for fam in ('chars', 'pairs', 'triples', 'kw', 'multi', 'esc', 'numbers'):
         r = ShardResult()
         compare(case['src'], r, fam)
         res.merge(r)
